@@ -18,6 +18,7 @@ import (
 	_ "github.com/bufbuild/verifharness/internal/digestmodel"
 	_ "github.com/bufbuild/verifharness/internal/faults"
 	_ "github.com/bufbuild/verifharness/internal/filtermodel"
+	_ "github.com/bufbuild/verifharness/internal/imagemodel"
 	_ "github.com/bufbuild/verifharness/internal/managedmodel"
 	_ "github.com/bufbuild/verifharness/internal/pathescape"
 	_ "github.com/bufbuild/verifharness/internal/sched"
